@@ -25,6 +25,8 @@ H_(name, k, i, m) == hist' = Append(hist, <<name, k, i, m, PObs>>)
 Lowest(st, D, x, live) == \A y \in D : y < x => st[y] # live
 NotYet(op, s) == \A j \in 1..Len(hist) : ~(hist[j][1] = op /\ hist[j][3] = s)
 
+Redelays(s) == Cardinality({j \in 1..Len(hist) : hist[j][1] = "DelayFlush" /\ hist[j][3] = s /\ hist[j][4] = "wait"})
+
 (* a second open of an opened slot: returns None, changes nothing *)
 ReOpen(s) == opc = "live" /\ sst[s] # "unopened" /\ NotYet("ReOpen", s) /\ UNCHANGED vars
 (* the owner starts to wait for the slot's data and gives up (the pending future is dropped, e.g. by a
@@ -55,6 +57,9 @@ Start ==
     \/ "NewForce" \in SeqOps /\ \E f \in F : NewForce(f) /\ H_("NewForce", "f", f, "")
     \/ "CloneHandle" \in SeqOps /\ \E h \in H : CloneHandle(h) /\ H_("CloneHandle", "h", h, "")
     \/ "OpenSlot" \in SeqOps /\ \E s \in S, m \in Modes : OpenSlot(s, m) /\ H_("OpenSlot", "s", s, m)
+    \* delay_flush, repeatable: Discard -> Wait, and Wait -> Wait with a fresh flush guard (at most twice per slot)
+    \/ "DelayFlush" \in SeqOps /\ \E s \in S : DelayFlush(s) /\ H_("DelayFlush", "s", s, "discard")
+    \/ "DelayFlush" \in SeqOps /\ \E s \in S : ReDelayFlush(s) /\ Redelays(s) < 2 /\ H_("DelayFlush", "s", s, "wait")
     \/ "ReOpen" \in SeqOps /\ \E s \in S : ReOpen(s) /\ H_("ReOpen", "s", s, "")
     \/ "WaitForData" \in SeqOps /\ \E s \in S : WaitForData(s) /\ H_("WaitForData", "s", s, "")
     \/ "WaitCancel" \in SeqOps /\ \E s \in S : WaitCancel(s) /\ H_("WaitCancel", "s", s, "")
